@@ -887,17 +887,20 @@ namespace xtl
                                                            size_type count) -> self_type&
     {
         check_index_strict(pos, other.size(), "xbasic_fixed_string::assign");
-        size_type copy_count = std::min(other.size() - pos, count);
-        m_storage.set_size(error_policy::check_size(copy_count));
-        traits_type::copy(data(), other.data() + pos, copy_count);
+        size_type copy_count = error_policy::check_size(std::min(other.size() - pos, count));
+        // other may be *this
+        traits_type::move(data(), other.data() + pos, copy_count);
+        m_storage.set_size(copy_count);
         return *this;
     }
 
     template <class CT, std::size_t N, int ST, template <std::size_t> class EP, class TR>
     inline auto xbasic_fixed_string<CT, N, ST, EP, TR>::assign(const_pointer s, size_type count) -> self_type&
     {
-        m_storage.set_size(error_policy::check_size(count));
-        traits_type::copy(data(), s, count);
+        error_policy::check_size(count);
+        // s may point into this string
+        traits_type::move(data(), s, count);
+        m_storage.set_size(count);
         return *this;
     }
 
